@@ -26,8 +26,8 @@ func runRace(b *harness.B, wantCPU int) {
 	b.SetAdd("numcpu_seen_in_race_batches", fmt.Sprint(numCPU()))
 	b.SetAdd("sector_root_fanout_goroutines", fmt.Sprint(1<<bits.Len(uint(numCPU()))))
 	b.SetAdd("cpu_path_of_dispatch", cpuPath())
-	nSec := b.Pick(3, 10)
-	rounds := b.Pick(3, 10)
+	nSec := b.Pick(4, 12)
+	rounds := b.Pick(6, 16)
 	const G = 8
 	kinds := []string{"random", "zero", "random", "leafindex", "random", "ff"}
 	sec := new([sectorSize]byte)
